@@ -181,6 +181,16 @@ def r6(ctx, rep):
         if not ok:
             rep.finding(R, f'C04.R6/helper/{what}', where, what,
                         'helper no longer computes what the frame-rule schemas rely on')
+    # the access rules folded on concrete branches: each yields exactly the missing instances of its clause, for every node
+    res, cons = frames.fold_access_rules(m, deep=rep.tier == 'thorough')
+    rep.consult(*cons)
+    seen = set()
+    for ok, base, case, detail in res:
+        rep.instance(R, ok=ok, nontrivial=case)
+        if not ok and base not in seen:
+            seen.add(base)
+            rep.finding(R, f'C04.R6/access.{base}/instances', m.relfile('pytableaux.proof.rules'), f'access.{base}', f'{case}: {detail}')
+    rep.floor('C04.R6', 'concrete access-rule cases', len(res), 900)
     n = 0
     for lg in ctx.lgs:
         rs = {}
